@@ -6,7 +6,7 @@
    Section closes).  The OCaml driver passes OCaml's Digest (MD5); the theorems hold for every
    function.  HMAC-MD5 is defined here from it (RFC 2104, block size 64).
 
-   The model carries five repair flags (true = repaired behaviour).  Four of them describe fixes that are
+   The model carries six repair flags (true = repaired behaviour).  Four of them describe fixes that are
    committed in /repo (7e62e2a, db29b2a, 331235d, 6f22cf3); their [false] branches are kept only for the historical
    [_refuted] witnesses in Properties.v and are not used by the correspondence check:
      f_reply    transport.go readLoop verifies Response Authenticator + Message-Authenticator
@@ -14,9 +14,12 @@
                 (zero authenticator field), and builds its replies MA first, authenticator second
      f_dmwin    the Event-Timestamp replay window also applies to Disconnect-Request
      f_white    a CoA whose attribute delta leaves the documented mutable set is NAKed (401)
-   The fifth is the one finding still recorded as known (coa-without-event-timestamp-bypasses-window):
+   Two describe findings recorded as known (not fixed in /repo):
      f_tsreq    while the replay window is enabled a request without a usable Event-Timestamp is discarded
-   [repaired] = all true (full theorems); [head] = /repo HEAD = all true except f_tsreq. *)
+                (coa-without-event-timestamp-bypasses-window)
+     f_dedup    an authenticated request is executed once; a byte-identical copy gets the cached reply
+                (coa-duplicate-request-reexecuted)
+   [repaired] = all true (full theorems); [head] = /repo HEAD = all true except f_tsreq and f_dedup. *)
 From Coq Require Import String Ascii.
 From OV Require Import Common.Base.
 Import ListNotations.
@@ -25,11 +28,14 @@ Local Open Scope N_scope.
 
 Definition bytes := list N.
 
-Record flags := { f_reply : bool; f_coaauth : bool; f_dmwin : bool; f_white : bool; f_tsreq : bool }.
-Definition repaired : flags := {| f_reply := true; f_coaauth := true; f_dmwin := true; f_white := true; f_tsreq := true |}.
+Record flags := { f_reply : bool; f_coaauth : bool; f_dmwin : bool; f_white : bool; f_tsreq : bool; f_dedup : bool }.
+Definition repaired : flags := {| f_reply := true; f_coaauth := true; f_dmwin := true; f_white := true; f_tsreq := true; f_dedup := true |}.
 (* what /repo HEAD implements after the four C08 fix commits: everything but the Event-Timestamp requirement *)
-Definition head : flags := {| f_reply := true; f_coaauth := true; f_dmwin := true; f_white := true; f_tsreq := false |}.
-Definition defective : flags := {| f_reply := false; f_coaauth := false; f_dmwin := false; f_white := false; f_tsreq := false |}.
+Definition head : flags := {| f_reply := true; f_coaauth := true; f_dmwin := true; f_white := true; f_tsreq := false; f_dedup := false |}.
+(* HEAD with exactly one of the two recorded findings repaired (used to attribute a mismatch to one finding) *)
+Definition head_nots : flags := {| f_reply := true; f_coaauth := true; f_dmwin := true; f_white := true; f_tsreq := false; f_dedup := true |}.
+Definition head_nodedup : flags := {| f_reply := true; f_coaauth := true; f_dmwin := true; f_white := true; f_tsreq := true; f_dedup := false |}.
+Definition defective : flags := {| f_reply := false; f_coaauth := false; f_dmwin := false; f_white := false; f_tsreq := false; f_dedup := false |}.
 
 (* ------------------------------------------------------------------ byte helpers *)
 Fixpoint beq (a b : bytes) : bool :=
@@ -573,6 +579,58 @@ Definition expected_wire (secret req : bytes) : bytes :=
   let r := if nth 0 req 0 =? 4
            then set_at 4 req (md5 (firstn 4 req ++ zeros16 ++ skipn 20 req ++ secret)) else req in
   refill_ma secret r.
+
+(* ---- the listener over a HISTORY of datagrams: duplicate detection (handleRequest + replayCache).
+   A request that reached a worker (authenticated by readLoop) is identified by the client's secret and its
+   first 20 octets (code, identifier, length, Request Authenticator).  With [f_dedup] a request whose key is
+   already known gets the reply sent the first time and is not executed; a request that produced a reply is
+   remembered.  Expiry of cache entries (2*window, capacity 4096) is not modelled. *)
+Definition cache := list (bytes * bytes * bytes).          (* secret, first 20 octets, reply sent *)
+Fixpoint cache_find (sec k : bytes) (c : cache) : option bytes :=
+  match c with
+  | [] => None
+  | (s', k', r) :: t => if beq sec s' && beq k k' then Some r else cache_find sec k t
+  end.
+Definition dedup_key (cfg : coacfg) (src : N) (raw : bytes) : option (bytes * bytes) :=
+  match find_client 0 (clients cfg) src with
+  | Some (_, c) => Some (c_secret c, firstn 20 raw)
+  | None => None
+  end.
+Definition reached_worker (o : coa_out) : bool :=
+  match o with
+  | ODropUnknown => false
+  | ODropInvalid _ [SInvalid] => false          (* dropped by readLoop *)
+  | _ => true
+  end.
+Definition coa_step_st (fl : flags) (cfg : coacfg) (now : Z) (src bus : N) (raw : bytes) (seen : cache)
+  : coa_out * cache :=
+  let out := coa_step fl cfg now src bus raw in
+  if f_dedup fl && reached_worker out then
+    match dedup_key cfg src raw with
+    | Some (sec, k) =>
+      match cache_find sec k seen with
+      | Some cached =>
+        (match out with
+         | OReply cl _ _ _ | ODropInvalid cl _ | OSilent cl => OReply cl [] cached None
+         | ODropUnknown => out
+         end, seen)
+      | None =>
+        match out with
+        | OReply _ _ reply _ => (out, (sec, k, reply) :: seen)
+        | _ => (out, seen)
+        end
+      end
+    | None => (out, seen)
+    end
+  else (out, seen).
+
+Definition coa_input := (Z * N * N * bytes)%type.          (* now, source, bus outcome, datagram *)
+Fixpoint coa_run (fl : flags) (cfg : coacfg) (seen : cache) (ins : list coa_input) : list coa_out :=
+  match ins with
+  | [] => []
+  | (now, src, bus, raw) :: r =>
+    let '(o, seen') := coa_step_st fl cfg now src bus raw seen in o :: coa_run fl cfg seen' r
+  end.
 
 (* Authenticate with the provider's extractAttributes (no custom response mappings) *)
 Definition authenticate_radius (fl : flags) (secret req : bytes) (dgs : list bytes) : auth_result :=
